@@ -471,6 +471,23 @@ int32_t jls_core_rd_chunk(struct jls_core_s * self) {
     }
 }
 
+// Payload bytes can pass the header CRC test, for example 0xFFFFFFFF, 24 zero bytes, 0xFFFFFFFF
+// in the samples of a 1-bit signal.  A chunk header also has a known tag and links that point backwards.
+static bool chunk_header_is_plausible(const struct jls_chunk_header_s * h, int64_t pos) {
+    switch (h->tag) {
+        case JLS_TAG_SOURCE_DEF: break;
+        case JLS_TAG_SIGNAL_DEF: break;
+        case JLS_TAG_USER_DATA: break;
+        case JLS_TAG_END: break;
+        default:
+            if (((h->tag & 0xE0) != JLS_TRACK_TAG_FLAG) || ((h->tag & 0x07) > JLS_TRACK_CHUNK_SUMMARY)) {
+                return false;
+            }
+            break;
+    }
+    return (h->item_prev < (uint64_t) pos) && ((0 == h->item_next) || (h->item_next > (uint64_t) pos));
+}
+
 int32_t jls_core_rd_chunk_end(struct jls_core_s * self) {
     uint64_t data[128];
     struct jls_bkf_s * backend = jls_raw_backend(self->raw);
@@ -492,7 +509,7 @@ int32_t jls_core_rd_chunk_end(struct jls_core_s * self) {
         for (int64_t i = (length - sizeof(struct jls_chunk_header_s)) / sizeof(uint64_t); i >= 0; --i) {
             h = (struct jls_chunk_header_s *) &data[i];
             uint32_t crc32 = jls_crc32c_hdr(h);
-            if (crc32 == h->crc32) {
+            if ((crc32 == h->crc32) && chunk_header_is_plausible(h, pos + i * sizeof(uint64_t))) {
                 int64_t pos_final = pos + i * sizeof(uint64_t);
                 // likely chunk candidate, validate payload
                 if (jls_raw_chunk_seek(self->raw, pos_final)) {
